@@ -110,6 +110,7 @@ def hermitianIO (j : Json) : Except String Json := do
   let two ← J.listOf J.gq (← J.field j "two_body")
   let tol ← tolOf j "tol"
   .ok (J.obj [("model", Json.bool (Model.C02.isHermitianIO tol n c one two)),
+              ("exact_regime", Json.bool (Model.C02.ioExactB tol n c one two)),
               ("hc_one", J.ofList J.ofGQ (Model.C02.hcOneBody n one)),
               ("hc_two", J.ofList J.ofGQ (Model.C02.hcTwoBody n two))])
 
